@@ -27,6 +27,10 @@ def key_domain(env, quick):
             ks.append(("2^%d-1" % k, 2**k - 1))
     for i in range(3 if quick else 64):
         ks.append(("seeded%d" % i, g.randrange(1, R_)))
+    # encodings whose leading byte equals the leading byte of p (0x1a): the public key, and the
+    # signature of the default message in the basic / PoP suites
+    for lbl, k in BL.leading_byte_keys().items():
+        ks.append((lbl, k))
     return [(l, k) for l, k in ks if 1 <= k < R_]
 
 
@@ -131,14 +135,22 @@ def replay_pop(a):
 
 # ------------------------------------------------------------------ rejected keys
 def bad_keys():
-    return [("0", 0), ("r", R_), ("r+1", R_ + 1), ("-1", -1), ("-r", -R_), ("2^255", 2**255), ("2^256", 2**256),
+    from fractions import Fraction
+    from decimal import Decimal
+    return [("Fraction(5)", Fraction(5)), ("Decimal(5)", Decimal(5)), ("float(5)", 5.0),
+            ("Fraction(7,2)", Fraction(7, 2)), ("0", 0), ("r", R_), ("r+1", R_ + 1), ("-1", -1), ("-r", -R_), ("2^255", 2**255), ("2^256", 2**256),
             ("2r", 2 * R_), ("r+2^300", R_ + 2**300), ("None", None), ("str", "1"), ("float", 1.0),
             ("float-large", 1e30), ("bytes", b"\x01"), ("tuple", (1,)), ("list", [1]), ("complex", 1j)]
 
 
-def reject_case(suite, i, fn):
+def reject_case(suite, i, fn, warm=False):
     S = BL.suite_cls(suite)
     label, k = bad_keys()[i]
+    if warm:
+        BL.call(S.SkToPk, 5)
+        BL.call(S.Sign, 5, b"msg")
+        if suite == "pop":
+            BL.call(S.PopProve, 5)
     f = {"SkToPk": lambda: S.SkToPk(k), "Sign": lambda: S.Sign(k, b"msg"),
          "PopProve": lambda: S.PopProve(k)}[fn]
     o = BL.call(f)
@@ -150,6 +162,13 @@ def reject_case(suite, i, fn):
 def task_reject(a, env):
     r = R("invalid-keys-refused")
     for suite in BL.SUITES:
+        # history: the valid int key 5 is used first (a result remembered for 5 must not be served
+        # to a non-int that merely compares equal to 5)
+        S = BL.suite_cls(suite)
+        BL.call(S.SkToPk, 5)
+        BL.call(S.Sign, 5, b"msg")
+        if suite == "pop":
+            BL.call(S.PopProve, 5)
         for i in range(len(bad_keys())):
             for fn in ("SkToPk", "Sign") + (("PopProve",) if suite == "pop" else ()):
                 bad = reject_case(suite, i, fn)
@@ -164,7 +183,7 @@ def task_reject(a, env):
 
 
 def replay_reject(a):
-    bad = reject_case(a["suite"], a["i"], a["fn"])
+    bad = reject_case(a["suite"], a["i"], a["fn"], True)
     return None if not bad else {"key": bad[0], "expected": bad[1], "observed": bad[2]}
 
 
